@@ -21,6 +21,7 @@ import (
 	"log"
 	"math/rand"
 	"runtime"
+	"runtime/debug"
 	"sort"
 	"syscall"
 	"time"
@@ -62,6 +63,10 @@ type Config struct {
 
 	GCTicks []int `json:"gc_ticks,omitempty"` // runtime.GC() at these tick numbers (ascending)
 	Ballast int   `json:"ballast,omitempty"`  // bytes allocated before the run to shift heap addresses
+
+	// GCOff: the Go collector runs only at GCTicks (heap growth never triggers it),
+	// so which allocations may reuse which addresses is decided by the schedule.
+	GCOff bool `json:"gc_off,omitempty"`
 
 	Budget int `json:"budget"` // max ticks; 0 = DefaultBudget
 
@@ -197,6 +202,14 @@ func Run(c Config, main func()) (res Result) {
 	}
 	log.SetOutput(Stderr)
 	log.SetFlags(0)
+	if c.GCOff {
+		runtime.GC()
+		old := debug.SetGCPercent(-1)
+		defer func() {
+			debug.SetGCPercent(old)
+			runtime.GC()
+		}()
+	}
 	exited, exitCode, budgetHit, returned = false, 0, false, false
 	// The program runs on its own goroutine so that Exit and the step budget can
 	// end it with runtime.Goexit, which a recover() in the code under test cannot
